@@ -10,6 +10,8 @@ import Bng.Model.PeerCluster
     get <i> s3        => <hex> owner=<j> | none owner=<j>
     health <i> <j> 0|1 => ok                       (node i's view of node j)
     stats <i>         => <allocated> <available> <total>
+    burst <i> s3 <k>  => as alloc | mixed <answer>,<answer>,… served=<j> ranked=…
+    audit <i>         => ok | bad lost=<n> stale=<n> norev=<n> dup=<n>
 
   `ranked` (the rendezvous ranking node i computes) and `owner` (GetOwner) are taken from the
   implementation's answer and fed to the model as inputs; `served` (getHealthyOwner) is computed by the model.
@@ -193,6 +195,42 @@ def step (st : St) (toks : List String) (impl : String) : St × LineResult :=
     | _, _ => (st, { modelObs := "badop" })
   | _ => (st, { modelObs := "badop" })
 
-def component : Component := { σ := St, init := {}, step := step }
+/-- `burst <i> s3 <k>`: k concurrent Allocate calls of one subscriber entering at node i are linearised as
+    ONE allocate (Bng.Spec.C01FreeList.burst_equals_single_allocate); when the implementation's answers differ
+    ("mixed a,b served=… ranked=…") every answer is judged as an answer to that subscriber.
+    `audit <i>`: node i's allocations, free list and reverse index compared with each other. -/
+def stepX (st : St) (toks : List String) (impl : String) : St × LineResult :=
+  match toks with
+  | ["burst", i, k, n] =>
+    match n.toNat? with
+    | some (_ + 1) =>
+      match splitTokens impl with
+      | ["mixed", l, sv, rk] =>
+        let answers := (l.splitOn ",").map fun a =>
+          if a == "exhausted" then s!"exhausted {sv} {rk}" else s!"ok {a} {sv} {rk}"
+        let first := step st ["alloc", i, k] (answers.headD "")
+        let rest := (answers.drop 1).foldl (fun (acc : St × List (String × String × String)) a =>
+          let (s', r) := step acc.1 ["alloc", i, k] a
+          (s', acc.2 ++ r.viols)) (first.1, first.2.viols)
+        (rest.1, { modelObs := first.2.modelObs, viols := rest.2 })
+      | _ => step st ["alloc", i, k] impl
+    | _ => (st, { modelObs := "badop" })
+  | ["audit", i] =>
+    match st.model, i.toNat? with
+    | some m, some i =>
+      if (AMap.lookup m.nodes i).isNone then (st, { modelObs := "badop" }) else
+      let num := fun (key : String) => ((splitTokens impl).filterMap fun t =>
+        if t.startsWith key then (t.drop key.length).toString.toNat? else none).head?.getD 0
+      let vs : List (String × String × String) :=
+        if impl == "ok" then [] else
+          (if num "lost=" > 0 then [("total", "none", s!"node {i}: {num "lost="} addresses are neither held nor free")] else []) ++
+          (if num "stale=" + num "norev=" > 0 then
+            [("agree", "none", s!"node {i}: reverse index disagrees with the allocations ({impl})")] else []) ++
+          (if num "dup=" > 0 then [("unique", "none", s!"node {i}: {num "dup="} addresses occur twice")] else [])
+      (st, { modelObs := "ok", viols := vs })
+    | _, _ => (st, { modelObs := "badop" })
+  | _ => step st toks impl
+
+def component : Component := { σ := St, init := {}, step := stepX }
 
 end Bng.Drv.PeerClusterDrv
